@@ -187,8 +187,8 @@ def agree(real_out, model_out):
     rp = r[-1] if r and r[-1].startswith("PANIC:") else None
     mp = m[-1] if m and m[-1].startswith("PANIC:") else None
     if real_out.startswith("ABORT"):
-        if mp in ("PANIC:15", "PANIC:2", "PANIC:1"):
-            return None
+        if mp in ("PANIC:15", "PANIC:2", "PANIC:1", "PANIC:8"):
+            return None      # a panic inside an extern "C" frame (on_block hook, C-ABI callback) aborts the process
         return "real run aborted (%s), model says %s" % (real_out[:80], mp)
     if rp is None and mp is None:
         if r == m:
@@ -275,7 +275,7 @@ def tally(dist, case, real_out):
     for o in sc.ops:
         inc("op_" + o)
     for a in sc.actions:
-        inc("act_" + {"s": "start", "n": "none", "e": "event", "x": "cancel", "r": "resolve", "d": "peer_drop", "p": "progress", "w": "xwake", "R": "raw", "z": "cleanup"}[a[0]])
+        inc("act_" + {"s": "start", "n": "none", "e": "event", "x": "cancel", "r": "resolve", "d": "peer_drop", "p": "progress", "w": "xwake", "k": "kwake", "R": "raw", "z": "cleanup"}[a[0]])
     for m in re.finditer(r"(?:cb:\d+:(\d+),\d+,\d+|start:\d+)=(\d+)", real_out):
         code = int(m.group(2))
         inc("answer_" + ("exit" if code == 0 else "yield" if code == 1 else "wait"))
